@@ -743,7 +743,11 @@ func (b *Builder) BOr(x, y *Term) *Term {
 		}
 		return b.mk(OpBOr, x.W, 0, x, y, nil)
 	}
-	// zext(a) | (zext(b) << k) patterns are left to the solver.
+	// byte-assembly patterns such as zext(b0) | zext(b1)<<8 | ...: when the operands occupy
+	// disjoint bit ranges the OR is a concatenation (which then fuses adjacent extracts)
+	if t := b.orDisjoint(x, y); t != nil {
+		return t
+	}
 	if x.ID > y.ID {
 		x, y = y, x
 	}
@@ -1192,4 +1196,82 @@ func Eval(t *Term, env map[string]uint64) uint64 {
 		return v
 	}
 	return ev(t)
+}
+
+// bitSlice is a run of bits [lo, lo+w) of a term: src == nil means zeros.
+type bitSlice struct {
+	src *Term
+	w   uint8
+}
+
+// slicesOf decomposes t (most significant first) into zero runs and opaque pieces, looking through
+// zero-extension, concatenation and constants. ok=false if t has no useful structure.
+func slicesOf(t *Term, out []bitSlice) ([]bitSlice, bool) {
+	switch t.Op {
+	case OpZExt:
+		out = append(out, bitSlice{nil, t.W - t.A[0].W})
+		return slicesOf(t.A[0], out)
+	case OpConcat:
+		var ok1, ok2 bool
+		out, ok1 = slicesOf(t.A[0], out)
+		out, ok2 = slicesOf(t.A[1], out)
+		return out, ok1 || ok2 || true
+	case OpConst:
+		if t.K == 0 {
+			return append(out, bitSlice{nil, t.W}), true
+		}
+	}
+	return append(out, bitSlice{t, t.W}), t.Op == OpZExt
+}
+
+// orDisjoint returns x|y as a concatenation when no bit position is (possibly) set in both.
+func (b *Builder) orDisjoint(x, y *Term) *Term {
+	if (x.Op != OpZExt && x.Op != OpConcat) || (y.Op != OpZExt && y.Op != OpConcat) {
+		return nil
+	}
+	sx, _ := slicesOf(x, nil)
+	sy, _ := slicesOf(y, nil)
+	// walk both slice lists from the most significant bit, splitting at all boundaries
+	var parts []*Term
+	i, j := 0, 0
+	var ox, oy uint8 // bits already consumed of sx[i], sy[j] (from the top)
+	for i < len(sx) && j < len(sy) {
+		rx, ry := sx[i].w-ox, sy[j].w-oy
+		n := rx
+		if ry < n {
+			n = ry
+		}
+		px, py := sx[i], sy[j]
+		if px.src != nil && py.src != nil {
+			return nil // overlap
+		}
+		var piece *Term
+		switch {
+		case px.src != nil:
+			hi := px.w - ox - 1
+			piece = b.Extract(px.src, hi, hi-n+1)
+		case py.src != nil:
+			hi := py.w - oy - 1
+			piece = b.Extract(py.src, hi, hi-n+1)
+		default:
+			piece = Const(n, 0)
+		}
+		parts = append(parts, piece)
+		ox += n
+		oy += n
+		if ox == sx[i].w {
+			i, ox = i+1, 0
+		}
+		if oy == sy[j].w {
+			j, oy = j+1, 0
+		}
+	}
+	if i != len(sx) || j != len(sy) || len(parts) == 0 {
+		return nil
+	}
+	res := parts[len(parts)-1]
+	for k := len(parts) - 2; k >= 0; k-- {
+		res = b.Concat(parts[k], res)
+	}
+	return res
 }
